@@ -387,7 +387,7 @@ class Emitter:
             if key in done: return
             done.add(key)
             fs = fields(ty.els)
-            body.append('%s%s {' % (s.lit_name(ty), ' __attribute__((packed))' if ty.packed else ''))
+            body.append('struct %s%s {' % ('__attribute__((packed)) ' if ty.packed else '', s.lit_name(ty).split()[-1]))
             body.extend(fs); body.append('};')
         def define_fn(ty):
             key = ('f', ty)
